@@ -285,3 +285,69 @@ Proof.
     + inv_pair H. apply Hsame; [apply frame_refl | reflexivity].
     + inv_pair H. apply Hsame; [apply frame_refl | reflexivity].
 Qed.
+
+(* ---------- one fragment in the unsolicited confirm wait ----------------------------------------------------------- *)
+
+Definition wait_frame (s s1 : ostate) : Prop :=
+  s_control s1 = s_control s /\ s_pending s1 = s_pending s /\ s_notify s1 = s_notify s /\
+  s_unsol_buf s1 = s_unsol_buf s.
+
+Lemma unsol_wait_fragment_pres cfg h s resp from bc bytes d fid s1 res o :
+  unsol_wait_fragment cfg s resp from bc bytes d fid = (s1, res, o) ->
+  sol_coh cfg h s ->
+  sol_coh cfg (h ++ o) s1 /\ wait_frame s s1 /\ forallb req_obs o = true /\
+  (res <> None -> s_deferred s1 = s_deferred s \/ s_deferred s1 = None).
+Proof.
+  unfold unsol_wait_fragment. intros H Hcoh.
+  assert (Hsame : forall s' o', s_last s' = s_last s -> s_sol_buf s' = s_sol_buf s -> wait_frame s s' ->
+            forallb req_obs o' = true ->
+            (res <> None -> s_deferred s' = s_deferred s \/ s_deferred s' = None) ->
+            sol_coh cfg (h ++ o') s' /\ wait_frame s s' /\ forallb req_obs o' = true /\
+            (res <> None -> s_deferred s' = s_deferred s \/ s_deferred s' = None)).
+  { intros s' o' Fl Fb Fw So Hd. split; [|auto]. apply sol_coh_frame with (s := s); auto. }
+  destruct (to_treq cfg from d) as [|q|ctl fn obj] eqn:Et.
+  - inv_pair H. apply Hsame; auto; try reflexivity. unfold wait_frame; auto.
+  - destruct (write_error_response (upd_deferred s None) from bc q) as [s2 o2] eqn:Ew.
+    apply write_error_response_spec in Ew as [[[Fc [Fl [Fd [Fp [Fn Fu]]]]] Fb] [S _]]. inv_pair H.
+    psimpl_in Fc. psimpl_in Fl. psimpl_in Fp. psimpl_in Fn. psimpl_in Fu. psimpl_in Fb.
+    apply Hsame; auto. unfold wait_frame; auto.
+  - pose proof (to_treq_from _ _ _ _ _ _ Et) as Hfrom.
+    destruct (classify s bc bytes ctl fn obj) as [iin2|hdrs rh|resp0 hdrs rh|hdrs|resp0|m|q|q] eqn:Ecl.
+    + destruct (write_solicited (upd_deferred s None) from (empty_solicited (ctl_seq ctl) iin2)) as [[s2 r2] o2] eqn:Ew.
+      apply write_solicited_spec in Ew as [[[Fc [Fl [Fd [Fp [Fn Fu]]]]] Fb] [_ [_ [_ [o' [-> S]]]]]]. inv_pair H.
+      psimpl_in Fc. psimpl_in Fl. psimpl_in Fp. psimpl_in Fn. psimpl_in Fu. psimpl_in Fb.
+      apply Hsame; auto. { unfold wait_frame; auto. }
+      rewrite forallb_app, (forallb_imp _ _ _ dbq_req S). reflexivity.
+    + inv_pair H. apply Hsame; auto; try reflexivity; [|intros X; congruence]. unfold wait_frame; psimpl; auto.
+    + inv_pair H. apply Hsame; auto; try reflexivity; [|intros X; congruence]. unfold wait_frame; psimpl; auto.
+    + destruct (handle_non_read cfg (upd_deferred s None) fn (ctl_seq ctl) fid bytes hdrs) as [[s2 r] o1] eqn:Eh.
+      apply handle_non_read_spec in Eh as [[Fc [Fl [Fd [Fp [Fn Fu]]]]] S1].
+      psimpl_in Fc. psimpl_in Fl. psimpl_in Fp. psimpl_in Fn. psimpl_in Fu. psimpl_in Fd.
+      apply (forallb_imp _ _ _ exec_req) in S1.
+      destruct r as [r0|].
+      * destruct (write_solicited s2 from r0) as [[s3 r1] o2] eqn:Ew.
+        apply write_solicited_spec in Ew as [[[Gc [Gl [Gd [Gp [Gn Gu]]]]] Gb] [_ [_ [_ [o' [-> S]]]]]]. inv_pair H.
+        apply (forallb_imp _ _ _ dbq_req) in S.
+        split; [|split; [|split]].
+        -- intros l r Hl Hr. psimpl_in Hl. inversion Hl; subst l. cbn [lr_response] in Hr. inversion Hr; subst r.
+           psimpl. exists from. split; [|exact Hfrom]. rewrite ?in_app_iff. cbn [In]. tauto.
+        -- unfold wait_frame; psimpl. repeat split; congruence.
+        -- fb.
+        -- intros _. right. psimpl. congruence.
+      * inv_pair H. split; [|split; [|split]].
+        -- intros l r Hl Hr. psimpl_in Hl. inversion Hl; subst l. discriminate.
+        -- unfold wait_frame; psimpl. repeat split; congruence.
+        -- fb.
+        -- intros _. right. psimpl. congruence.
+    + inv_pair H. apply Hsame; auto; try reflexivity. { unfold wait_frame; psimpl; auto. }
+      destruct resp0; reflexivity.
+    + destruct (process_broadcast cfg (upd_deferred s None) m fid ctl fn bytes obj) as [s2 o2] eqn:Ep.
+      apply process_broadcast_spec in Ep as [[[Fc [Fl [Fd [Fp [Fn Fu]]]]] Fb] S]. inv_pair H.
+      psimpl_in Fc. psimpl_in Fl. psimpl_in Fp. psimpl_in Fn. psimpl_in Fu. psimpl_in Fb.
+      apply Hsame; auto. unfold wait_frame; auto.
+    + inv_pair H. apply Hsame; auto; try reflexivity; [|intros X; congruence].
+      destruct (s_last_bcast s) as [[]|]; unfold wait_frame; psimpl; auto.
+      all: try (destruct (s_last_bcast s) as [[]|]; psimpl; reflexivity).
+    + destruct (q =? ctl_seq (r_ctl resp)); inv_pair H; apply Hsame; auto; try reflexivity;
+        unfold wait_frame; psimpl; auto.
+Qed.
